@@ -38,6 +38,12 @@ WORK = V.BUILD / "work" / CID
 BUDGET = 4000000
 MAX_CERT_IN_BITS = 7          # 3^7 input vectors per product state; wider designs: interpreter replay only
 KNOWN_CASE = "mux-undefined-selector-case-others"
+# EXACT undefined-read-address behaviour: the simulator merges the candidate words, the exported memory(to_integer(addr)) reads word 0
+# (TO_INTEGER of a metavalue is 0): reported to main; generated only / tolerated only while KNOWN_FINDINGS.txt lists it
+KNOWN_MEM_EXACT = "mem-exact-undefined-read-address"
+# a register whose output signal is an OUT port of a sub-entity has no VHDL initial value ('U' until the first edge); honoured only if listed
+KNOWN_REG_PORT = "reg-output-port-no-initial-value"
+ALLOW_EXACT = False
 KNOWN_SHIFT_LIT = "shift-literal-operand"     # honoured only if KNOWN_FINDINGS.txt lists it (reported to main, see corpus/*.pending)
 
 
@@ -144,6 +150,100 @@ def gen_edges(seed, did):
     return L, ["edges"]
 
 
+def mem_image(rng, depth, width, pattern):
+    """power-on image as list of words (index = address), each a string over 0 1 X"""
+    words = ["".join(rng.choice("01") for _ in range(width)) for _ in range(depth)]
+    X = "X" * width
+    if pattern == "hole_start":
+        for i in range(rng.randrange(1, max(2, depth * 3 // 4))):
+            words[i] = X
+    elif pattern == "hole_middle":
+        a = rng.randrange(1, max(2, depth - 1)); b = rng.randrange(a, depth)
+        for i in range(a, min(b + 1, depth - 1)):
+            words[i] = X
+    elif pattern == "hole_end":
+        for i in range(rng.randrange(1, depth), depth):
+            words[i] = X
+    elif pattern == "single_words":
+        for i in rng.sample(range(depth), max(1, depth // 4)):
+            words[i] = X
+    elif pattern == "single_bits":
+        for i in range(depth):
+            if rng.random() < 0.5:
+                k = rng.randrange(width)
+                words[i] = words[i][:k] + "X" + words[i][k + 1:]
+    elif pattern == "only_last":
+        words = [X] * (depth - 1) + [words[-1]]
+    elif pattern == "only_one":
+        k = rng.randrange(depth)
+        words = [X if i != k else words[i] for i in range(depth)]
+    elif pattern == "sparse_start":     # first words undefined, later ones partially defined
+        for i in range(max(1, depth // 2)):
+            words[i] = X
+        for i in range(depth // 2, depth):
+            if rng.random() < 0.3 and width > 1:
+                k = rng.randrange(width)
+                words[i] = words[i][:k] + "X" + words[i][k + 1:]
+    return words
+
+
+MEM_PATTERNS = ["hole_start", "hole_start", "hole_middle", "hole_end", "single_words", "single_bits", "only_last", "only_one", "sparse_start", "full"]
+
+
+def gen_mem(seed, did, pattern=None):
+    """ROMs and RAMs exported through the generic memory entity with DECLARED power-on contents (partially defined images),
+    widths 1..9, depths 2..32; every address is read: counter-driven read ports at fixed offsets sweep the whole memory, one
+    more port is addressed by an input pin; optional write port (also on the falling edge), read latency register"""
+    rng = random.Random(seed)
+    depth = rng.choice([2, 4, 8, 16, 16, 32])
+    width = rng.randrange(1, 10)
+    aw = max(1, (depth - 1).bit_length())
+    pattern = pattern or rng.choice(MEM_PATTERNS)
+    words = mem_image(rng, depth, width, pattern)
+    fill = "".join(reversed(words))
+    ram = rng.random() < 0.5
+    lat = rng.random() < 0.25
+    opts = [f"fill={fill}"]
+    if ALLOW_EXACT and rng.random() < 0.2:      # see KNOWN_MEM_EXACT
+        opts.append("exact")
+    if lat:
+        opts.append("lat=1")
+    if ram and rng.random() < 0.3:
+        opts.append("noconf")
+    L = [f"design {did}", f"in addr {aw}"]
+    fall = ram and not lat and rng.random() < 0.3
+    if fall:
+        L.append("clockdef fclk falling")
+    L.append(f"mem m {depth} {width} " + " ".join(opts))
+    if ram:
+        L += [f"in waddr {aw}", f"in d {width}", "inb we"]
+        L += (["clk fclk"] if fall else []) + ["memwrite m waddr d we"] + (["endclk"] if fall else [])
+    outs = []
+    L.append("memread q m addr")
+    outs.append("q")
+    # address counter, reset to 0, +1 per cycle
+    L += [f"loopvar c {aw}", f"lit one u{aw} {format(1, '0%db' % aw)}", "bin n add c one", f"reg cr n rst {'0' * aw}", "close c cr"]
+    nports = max(1, -(-depth // 8))
+    for j in range(nports):
+        off = (j * 8) % depth
+        if off == 0:
+            a = "cr"
+        else:
+            L += [f"lit k{j} u{aw} {format(off, '0%db' % aw)}", f"bin a{j} add cr k{j}"]
+            a = f"a{j}"
+        L.append(f"memread s{j} m {a}")
+        outs.append(f"s{j}")
+    if lat:
+        regd = []
+        for o in outs:
+            L.append(f"regb {o}_r {o}")
+            regd.append(f"{o}_r")
+        outs = regd
+    for k, o in enumerate(outs):
+        L.append(f"out o{k} {o}")
+    return L, ["memory", "mem_" + pattern, "rom" if not ram else "ram"]
+
+
 def gen_all(seed, tier):
     ndes = 60 if tier == "quick" else 1500
     nwide = 8 if tier == "quick" else 150
@@ -161,6 +261,10 @@ def gen_all(seed, tier):
         designs.append(gen_wide(seed * 300007 + i, f"w{i}"))
     for i in range(10 if tier == "quick" else 200):
         designs.append(gen_edges(seed * 500009 + i, f"e{i}"))
+    nmem = 12 if tier == "quick" else 200
+    for i in range(nmem):
+        # quick: every image pattern at least once
+        designs.append(gen_mem(seed * 700001 + i, f"m{i}", MEM_PATTERNS[i % len(MEM_PATTERNS)] if i < len(MEM_PATTERNS) else None))
     return designs
 
 
@@ -312,6 +416,8 @@ def main():
     forb = [h for h in V.scan_forbidden() if h.split(":")[0] in coq_closure("Properties_C02")]
     known, _ = V.known_findings(CID)
     known_case_listed = any(k.startswith(KNOWN_CASE) for k in known)
+    global ALLOW_EXACT
+    ALLOW_EXACT = any(k.startswith(KNOWN_MEM_EXACT) for k in known)
     known_shift_lit_listed = any(k.startswith(KNOWN_SHIFT_LIT) for k in known)
     known_shift_lit = []
 
@@ -477,7 +583,22 @@ def main():
                                    "defined values under this stimulus: either an undefined-value difference (lifted netlist uses gatery X "
                                    "semantics) or the two front-end routes disagree", vhdl=excerpt(WORK / ("run_" + mode), did), nofail=True))
     # (2) interpreter mismatches on the recorded traces / test vectors
+    known_exact, known_regport = [], []
+    regport_listed = any(k.startswith(KNOWN_REG_PORT) for k in known)
     for (mode, did), a in results.items():
+        if regport_listed and a["mismatches"] and all(
+                m["cycle"] == 0 and not m["contradiction"] and m.get("observed") and
+                all(o == "U" for e_, o in zip(m["expected"], m["observed"]) if e_ in "01" and S.to_x01(o) != e_) for m in a["mismatches"]):
+            disagreements += 1
+            known_regport.append((did, a["mismatches"][0]))
+            a["mismatches"] = []
+            if a.get("tv"):
+                a["tv"]["failed"] = []
+        if ALLOW_EXACT and a["mismatches"] and any(l.startswith("mem ") and " exact" in l for l in prog[did]) and \
+                not any(m["stimulus_fully_defined"] for m in a["mismatches"]):
+            disagreements += 1
+            known_exact.append((did, a["mismatches"][0]))
+            a["mismatches"] = []
         for m in a["mismatches"][:1]:
             disagreements += 1
             violations.append(dict(kind="exported VHDL does not reproduce a defined output value of the reference simulator (VHDL interpreter replay of a real trace)",
@@ -542,9 +663,9 @@ def main():
             nontrivial.add(h)
     rep.cov["distinct_nontrivial"] = len(nontrivial)
     rep.cov["rule"] = ("design programs: corpus/C02 (hand-written: async/sync x high/low reset, registers / memory ports on rising+falling+both edges of one clock pin with data crossing between the edges, several reset pins, nested entities and areas, wide arithmetic, non-total mux, "
-                       "memory, tristate, falling edge, X-selector mux) + seeded lib/designgen.py shapes (if/elif chains, mux chains/merges, registers with "
+                       "memories incl. ROM/RAM 16x8 with words 0..5 undefined, tristate, falling edge, X-selector mux) + seeded lib/designgen.py shapes (if/elif chains, mux chains/merges, registers with "
                        "reset+enable, hold loops, constant folding, areas/entities, slices, shifts, arithmetic), ~45% with a random reset kind/polarity, "
-                       "+ wide-operand programs (8..128 bit; interpreter route only) + mixed-edge programs (derived clocks on one pin: falling / both edges, own reset names/kinds/polarities, cross-edge data paths; interpreter route only).  Each is built, post-processed and exported by the real library. "
+                       "+ wide-operand programs (8..128 bit; interpreter route only) + mixed-edge programs (derived clocks on one pin: falling / both edges, own reset names/kinds/polarities, cross-edge data paths; interpreter route only) + memory programs (ROM/RAM, declared partially defined power-on images, full address sweeps; interpreter route only).  Each is built, post-processed and exported by the real library. "
                        "non-trivial = distinct exported top-entity text whose lifted netlist contains at least one register / mux / arithmetic / compare / "
                        "shift node AND whose certificate was accepted by the verified checker")
     rep.cov["output_modes"] = modes
@@ -567,6 +688,8 @@ def main():
     rep.cov["vhdl_unsupported_by_lifter_only"] = len(lift_uns)
     rep.cov["unsupported_reasons"] = sorted({a["reason"][:100] for a in uns} | {a["lift_reason"][:100] for a in lift_uns})[:10]
     rep.cov["unsupported_share"] = round((len(uns) + len(lift_uns)) / max(1, len(exported)), 4)
+    memd = [i for i in ids if any(l.startswith("mem ") and "fill=" in l for l in prog[i])]
+    rep.cov["memories_with_declared_power_on_image"] = len(memd)
     nc = [a for a in allr if a["status"] == "ok" and not a.get("classic", True)]
     rep.cov["mixed_edge_or_multi_reset_exports"] = len(nc)
     rep.cov["clock_edge_sets_seen"] = sorted({a["meta"].get("edges", "-") for a in allr if a.get("meta")})
@@ -602,7 +725,7 @@ def main():
         "route 2: VHDL metavalue rules (\"=\" on metavalues FALSE, X condition takes ELSE, CASE falls to OTHERS, arithmetic all-X) are modelled, but only the sampled stimuli are replayed",
         "dumped netlist and lifted netlist are each tied to the real ReferenceSimulator by per-cycle trace comparison (tie); circuit model: single clock, rising edge, reset schedule from the real simulator's event log",
         "clock edges: every design is additionally replayed on HALF-PERIOD traces (inputs change and outputs are sampled between every two clock edges, reset pins by their exported names), so the edge written in each exported process (rising_edge / falling_edge / 'event) is what decides when a register updates; designs with falling/both-edge registers or several reset pins on one clock pin are covered by this interpreter route only (the certificate checker's circuit model is single rising-edge clock, one reset pin)",
-        "lifter-unsupported (interpreter only): GenericMemoryEntity (inferred memories); unsupported by both: tristate / inout pins, external nodes, generics, multi-clock designs; falling-edge clocks and designs wider than %d input bits are covered by the interpreter route only" % MAX_CERT_IN_BITS,
+        "memories (GenericMemoryEntity: array signal with the power-on aggregate `(k => \"..\", others => (others => 'X'))`, asynchronous and registered read ports, read latency registers, write ports on either edge) are executed by the interpreter only (lifter-unsupported): ROMs and RAMs with declared, partially defined power-on images (holes at the start / middle / end, single words, single bits; widths 1..9, depths 2..32) are read at every address by counter-driven ports; memories with `exact` undefined-address behaviour are excluded while the finding mem-exact-undefined-read-address is undecided; unsupported by both: tristate / inout pins, external nodes, generics, multi-clock designs; falling-edge clocks and designs wider than %d input bits are covered by the interpreter route only" % MAX_CERT_IN_BITS,
         "register power-on: the lifter requires signal initial value == reset value (the netlist format has one value for both); the interpreter models VHDL initial values exactly",
         "designs are sampled by the generators; the theorem closes the stimulus and cycle quantifiers per validated design",
     ]
@@ -634,6 +757,12 @@ def main():
             violations.insert(0, dict(kind="VHDL is less defined than the reference simulation: CASE .. WHEN OTHERS => X under an undefined mux selector",
                                       design=did, mode=mode, program=prog[did], stimulus=m.get("trace"),
                                       failing=m, vhdl=excerpt(WORK / ("run_" + mode), did, "CASE")))
+    if known_regport:
+        did, m = known_regport[0]
+        rep.known(f"{KNOWN_REG_PORT} ({len(known_regport)} exports this run, e.g. {did} sample 0 pin {m['pin']}: simulator {m['expected']}, VHDL {m['observed']})")
+    if known_exact:
+        did, m = known_exact[0]
+        rep.known(f"{KNOWN_MEM_EXACT} ({len(known_exact)} exports this run, e.g. {did} sample {m['cycle']} pin {m['pin']}: simulator {m['expected']}, VHDL {m['observed']}, inputs {m.get('inputs')})")
     if known_shift_lit:
         rep.known(f"{KNOWN_SHIFT_LIT} ({len(known_shift_lit)} exports this run, e.g. {known_shift_lit[0][0]}: SHIFT_x(\"literal\", ..) inside a type conversion is ambiguous)")
     seen = 0
